@@ -38,6 +38,9 @@ func genC14(p *Plan, r *RNG) {
 	}
 	baseSrvConfig(p, r)
 	p.Flavor = "e2e"
+	if r.Chance(1, 5) {
+		p.Cfg.Listener = "tcp" // the real client speaks TURN over a stream (STUNConn)
+	}
 	p.Cfg.LatCSns = int64(r.Range(1, 120))*ms + int64(r.Intn(1000))*7 + 3
 	p.Cfg.LatSPns = int64(r.Range(1, 60))*ms + int64(r.Intn(1000))*11 + 5
 	p.Cfg.RTOms = r.PickInt([]int{0, 100, 200})
@@ -122,6 +125,10 @@ func genC14(p *Plan, r *RNG) {
 			p.NetFaults = append(p.NetFaults, NetFault{M: Match{Flow: flow, What: kind, Nth: 1 + 3*r.Intn(20)}, Do: do, Arg: int64(r.Range(1, 400)) * ms})
 		}
 		p.Flavor = "e2e+loss"
+	}
+	if p.Cfg.Listener == "tcp" {
+		p.Flavor += "-tcp"
+		p.Ops[0].At = gap(sec) // the control connection has to be up before the first call
 	}
 	p.QuietNS = 10 * sec
 }
